@@ -1,7 +1,8 @@
 import SctpVerif.Proofs.Sender.WireId
 /-! Every accepted write creates at least one chunk; hence there are at most as many accepted writes, and at most as
 many fragments in one message, as chunks written in all. -/
-namespace SenderProofs
+namespace SenderTsn
+open SenderProofs
 open Gen Sender
 open NetSys (Write accepts)
 
@@ -85,4 +86,4 @@ theorem moved_le_written (cfg : Cfg) (tsn peerRwnd : BitVec 32) (ops : List Op) 
   have := moved_count_le cfg tsn peerRwnd ops (fun _ => true)
   simpa using this
 
-end SenderProofs
+end SenderTsn
